@@ -90,7 +90,13 @@ func fileInfo(src string) (decls []declInfo, header []string, all []string, err 
 			di.isImport = true
 			for _, sp := range gd.Specs {
 				if is, ok := sp.(*ast.ImportSpec); ok && is.Path != nil {
-					di.paths = append(di.paths, is.Path.Value)
+					// an import is kept when the file still imports the path under the same name: a change that renames
+					// an import (-import . "p" +import _ "p") replaces it (false alarm of the thorough sweep, seed 191)
+					nm := ""
+					if is.Name != nil {
+						nm = is.Name.Name + " "
+					}
+					di.paths = append(di.paths, nm+is.Path.Value)
 				}
 			}
 			if gd.Doc != nil {
